@@ -1260,8 +1260,24 @@ class Emitter:
             if e1[0] == "call" and e1[1][0] == "path" and self.path_text(e1[1][1]) in cfg.get("try_calls", {}):
                 return (cfg["try_calls"][self.path_text(e1[1][1])], [a for a in e1[2] if not self.is_parser(a)], False)
             return None
+        if e[0] in ("mcall", "call") and cfg.get("effect_prefixes"):
+            txt = self.rust_text(e)
+            for pre, tmpl in cfg["effect_prefixes"].items():
+                if txt.startswith(pre):
+                    return (tmpl, [], False)
         if e[0] == "mcall" and self.is_parser(e[1]) and e[2] in cfg.get("reads", {}):
             return (cfg["reads"][e[2]], list(e[3]), True)
+        if e[0] == "mcall" and self.is_parser(e[1]) and e[2] in cfg.get("reads_at", {}):
+            # a read at a given offset of a random-access parser: no parser state
+            return (cfg["reads_at"][e[2]], list(e[3]), False)
+        if e[0] == "mcall" and e[1][0] == "path" and len(e[1][1]) == 1 and (e[1][1][0], e[2]) in cfg.get("try_methods", {}):
+            return (cfg["try_methods"][(e[1][1][0], e[2])], list(e[3]), False)
+        if e[0] == "mcall" and e[2] in ("unwrap", "expect") and e[1][0] == "mcall" and e[1][1][0] == "path" \
+                and len(e[1][1][1]) == 1 and e[1][1][1][0] in cfg.get("slice_parsers", {}) and e[1][2] in ("read_usized", "read_isized"):
+            # `SliceParser::new(data, _).read_usized(n).unwrap()`: reading `n` bytes of `data`, a panic when too short
+            data = cfg["slice_parsers"][e[1][1][1][0]]
+            fn = "takeLE" if e[1][2] == "read_usized" else "takeLEs"
+            return (f"(unwrapped (({fn} {data} " + "{0}).bind fun x => .ok x.1))", list(e[1][3]), False)
         if e[0] == "call" and e[1][0] == "path" and self.path_text(e[1][1]) in cfg.get("read_calls", {}):
             return (cfg["read_calls"][self.path_text(e[1][1])], [a for a in e[2] if not self.is_parser(a)], True)
         if e[0] == "mcall" and e[2] == "unwrap" and not e[3]:
